@@ -1,5 +1,6 @@
 from __future__ import annotations
 
+import logging
 from typing import TYPE_CHECKING, Dict, Optional, Tuple, Type, Union, cast
 
 from indi import message
@@ -11,6 +12,8 @@ if TYPE_CHECKING:
     from indi.device.properties.definition.vectors import Vector as VectorDefinition
     from indi.device.properties.instance.elements import Switch
     from indi.device.properties.instance.group import Group
+
+logger = logging.getLogger(__name__)
 
 
 class Vector:
@@ -119,8 +122,21 @@ class Vector:
         )
 
     def from_new_message(self, msg: message.NewVector):
+        if not isinstance(msg, getattr(self, "new_message_class", ())):
+            logger.warning("Vector %s: cannot be written with %s", self.name, msg)
+            return
+
         for child in msg.children:
-            self._elements_by_name[child.name].set_value_from_message(child)
+            element = self._elements_by_name.get(child.name)
+            if element is None:
+                logger.warning("Vector %s: no element %s", self.name, child.name)
+                continue
+            try:
+                element.set_value_from_message(child)
+            except (ValueError, TypeError, AssertionError):
+                logger.warning(
+                    "Vector %s: invalid value for element %s", self.name, child.name
+                )
 
 
 class NumberVector(Vector):
